@@ -37,6 +37,9 @@ def exec_SC(t):
             if all(v >= 0 for v in vs) and (len(vs) + sum(int(v) % 5 for v in vs)) % 3 == 0:
                 dt = np.uint64 if int(vs[0]) % 2 else np.uint32        # the wide unsigned types: v - bias must not wrap at zero either
             v_in = dt(vals[0]) if len(vals) == 1 else np.array(vals, dtype=dt)
+            if (n + len(vs) + int(vs[0])) % 4 == 1:
+                # the same NumPy integers standing in a python list or tuple (D59: a list of np.uint64 kept uint64 as its value type)
+                v_in = [dt(v) for v in vals] if (n + f) % 2 else tuple(dt(v) for v in vals)
         kw = dict(rounding=r, overflow=o, scale=num(sc, 'int' if sp == 'npint' else sp), bias=num(bi, 'int' if sp == 'npint' else sp))
         if sp == 'npint' and isinstance(kw['bias'], float) and float(np.float32(kw['bias'])) == kw['bias'] and (n + f) % 2:
             kw['bias'] = np.float32(kw['bias'])       # the same bias as a NumPy float (it is a float all the same)
